@@ -2919,6 +2919,12 @@ func (dsc *dataStoreCommand) setMove(source, destination, memberName string) (ou
 		return
 	}
 
+	// the destination must be a set (or missing) whether or not the member is in the source
+	if dsk, dstExists := dsc.getKeyObjectUnlocked(destination); dstExists && dsk.getSet() == nil {
+		output.data = wrongTypeError
+		return
+	}
+
 	_, exists := ss.get(memberName)
 	if !exists {
 		output.data = respInt(0)
